@@ -71,6 +71,7 @@ M += [
  ("discourage-wit","pycoin/coins/bitcoin/SegwitChecker.py","elif flags & VERIFY_DISCOURAGE_UPGRADABLE_WITNESS_PROGRAM:","elif False:"),
  ("nop-discourage","pycoin/satoshi/miscops.py",'NOP_SET = "OP_NOP1 OP_NOP3 OP_NOP4','NOP_SET = "OP_NOP1 OP_NOP3'),
  ("checksigverify","pycoin/satoshi/checksigops.py","def do_OP_CHECKSIGVERIFY(vm: Any) -> None:\n    do_OP_CHECKSIG(vm)\n    v = vm.bool_from_script_bytes(vm.pop())\n    if not v:","def do_OP_CHECKSIGVERIFY(vm: Any) -> None:\n    do_OP_CHECKSIG(vm)\n    v = vm.bool_from_script_bytes(vm.pop())\n    if False:"),
+ ("opcount-keys-after-pop","pycoin/satoshi/checksigops.py","    vm.op_count += key_count\n","    vm.op_count += len(public_pair_blobs)\n"),
  ("multisig-order","pycoin/satoshi/checksigops.py","    public_pair_blobs = [vm.pop() for _ in range(key_count)]\n    public_pair_blobs.reverse()","    public_pair_blobs = [vm.pop() for _ in range(key_count)]"),
 ]
 # later entries replace earlier ones of the same name
